@@ -31,7 +31,7 @@ def _brace(xs, n):
     return '{' + ','.join(str(x) for x in xs) + '}'
 
 
-def select_job(name, prios, conf=None, passes=1, nin=2, nbody=1, nmatch=1, adversarial=False, tags=(), timeout=600):
+def select_job(name, prios, conf=None, passes=1, nin=2, nbody=1, nmatch=1, adversarial=False, tags=(), timeout=600, pfix=None, quiet_after=None):
     """real apply_macros with the given priority pattern (one entry per definition, in order of definition)"""
     nd = len(prios); cap_nd = max(nd, 1)
     conf = list(conf or [0] * nd)
@@ -39,6 +39,10 @@ def select_job(name, prios, conf=None, passes=1, nin=2, nbody=1, nmatch=1, adver
     ct = nin + 1 + (passes + 1) * max(maxr - 1, 0) + 1
     d = dict(MA_ND=cap_nd, MA_NDEF=nd, MA_NIN=nin, MA_NBODY=nbody, MA_NMATCH=nmatch, MA_RS=2, MA_PMAX=passes, MA_PFIX=passes, MA_CT=ct, MA_NERR=cap_nd + 2,
              MINISTL_VEC_CAP=1, MINISTL_MAP_CAP=1, MINISTL_STR_CAP=12 if passes <= 1 else 16, MA_PRIOS=_brace(prios, cap_nd), MA_CONF=_brace(conf, cap_nd))
+    if pfix is not None:
+        # budget far above the passes needed: `passes` sizes the model (log, token capacity, unwinding), the budget handed to apply_macros is pfix and the
+        # detector contract says nothing matches any more after quiet_after consultations
+        d['MA_PFIX'] = '%du' % pfix; d['MA_QUIET_AFTER'] = quiet_after
     u = max(cap_nd, passes) + 2
     us = {AM + '.%d' % i: u for i in range(4)}
     us[GD + '.0'] = cap_nd + 2; us[GR + '.0'] = nbody + 2
@@ -48,7 +52,7 @@ def select_job(name, prios, conf=None, passes=1, nin=2, nbody=1, nmatch=1, adver
                   what='real Theo::apply_macros (with its real helpers), detectors stubbed by contract (%s): priorities %s in order of definition, rejected %s, passes=%d; the oracle replays the recorded detector answers through the specification (which match, which instantiation) and compares with the token sequences apply_macros produced'
                        % ('always reports a match' if adversarial else 'nullopt or any (location,length,non-empty matched sequences) inside the input before T_EOF, fresh choice per call', list(prios), conf, passes),
                   bounds='%d definitions (constant priorities/rejections per job, symbolic bodies <= %d tokens of kind ID/INT/;/$0/#k, symbolic slot position), input <= %d symbolic tokens + T_EOF, matched sequences 1..%d tokens, passes=%d'
-                         % (nd, nbody, nin, nmatch, passes),
+                         % (nd, nbody, nin, nmatch, passes) + ('' if pfix is None else '; budget handed over = %d, detectors silent after %d consultations' % (pfix, quiet_after)),
                   functions=FUNCS_APPLY)
 
 
